@@ -1096,7 +1096,8 @@ def _class_scalar(model, cls, name: str):
             return None  # a class-level default of a dataclass is an instance field
         for x in b.base_exprs:
             t = ast.unparse(x)
-            if t.split("[")[0].split(".")[-1] not in ("object", "ABC", "Generic", "Protocol") and model.resolve_class(b.module, x) is None:
+            if t.split("[")[0].split(".")[-1] not in ("object", "ABC", "Generic", "Protocol", "IntEnum") and model.resolve_class(b.module, x) is None:
+                # (an IntEnum member compares, hashes and computes as its int; only its repr differs)
                 return None  # Enum, NamedTuple, TypedDict, list, Exception, ...: class-level names are not plain constants there
     # overridden in a subclass, or also an instance attribute / method somewhere below or above: not a constant of the receiver
     for c2 in model.subclasses(cls):
@@ -1323,12 +1324,17 @@ def _alias_locals(model, f, node) -> bool:
 
 def canonicalise(model, f) -> bool:
     """Rewrite f.node in place (a copy); returns True when something changed."""
-    tables = Tables(model, f)
     node = copy.deepcopy(f.node)
     named = _named_constants(model, f, node)
     named = _alias_locals(model, f, node) or named
     if any(isinstance(n, (ast.Name, ast.Attribute)) and (getattr(n, "id", None) == "reduce" or getattr(n, "attr", None) == "reduce") for n in ast.walk(node)):
         named = _reduce_to_loop(node) or named
+    # the tables are looked up in the function as it stands now (named constants already written out: `Kind.A` as a key is its number)
+    from .model import FuncInfo as _FI
+    f_now = _FI(f.name, f.qname, node, f.module, f.cls)
+    if "raw_node" in f.__dict__:
+        f_now.__dict__["raw_node"] = f.__dict__["raw_node"]
+    tables = Tables(model, f_now if named else f)
     ex = _Expr(tables)
     # statement level first on the original expressions (so `a, b = T[k]` is still a subscript), then expressions
     st = _Stmt(tables)
